@@ -270,7 +270,7 @@ theorem truncated_controllerOf_counterexample :
     Write.archive 0 ∈ (odPass ["r1", "r2"] truncatedState).2.1 ∧
     (∀ n ∈ ["r1", "r2"], ∀ o, truncatedState.sets n = some o → condTrue o.conds "Available" = false) ∧
     (∃ r1 r2, truncatedState.sets "r1" = some r1 ∧ truncatedState.sets "r2" = some r2 ∧
-      ControlsInStore truncatedState r1 kC = true ∧ r2.phases.any (fun ph => ph.objs.any fun p => keyOf ⟨.native, ⟨true, true, true⟩, fun _ => .namespaced, false⟩ r2.owner p == kC) = true) := by
+      ControlsInStore truncatedState r1 kC = true ∧ r2.phases.any (fun ph => ph.objs.any fun p => keyOf { st := .native, flavour := ⟨true, true, true⟩, scope := fun _ => .namespaced, force := false } r2.owner p == kC) = true) := by
   refine ⟨by decide +kernel, ?_, ?_⟩
   · intro n hn o ho
     simp only [List.mem_cons, List.mem_nil_iff, or_false] at hn
@@ -308,7 +308,7 @@ theorem available_while_paused_counterexample :
     (odPass ["r1", "r2"] resumedState).2.1 = [.activate 0, .activate 1, .archive 0] ∧
     (∃ r1 r2, resumedState.sets "r1" = some r1 ∧ resumedState.sets "r2" = some r2 ∧
       ControlsInStore resumedState r1 kC = true ∧ ControlsInStore resumedState r2 kC = false ∧
-      r2.phases.any (fun ph => ph.objs.any fun p => keyOf ⟨.native, ⟨true, true, true⟩, fun _ => .namespaced, false⟩ r2.owner p == kC) = true) := by
+      r2.phases.any (fun ph => ph.objs.any fun p => keyOf { st := .native, flavour := ⟨true, true, true⟩, scope := fun _ => .namespaced, force := false } r2.owner p == kC) = true) := by
   refine ⟨by decide +kernel, ?_⟩
   exact ⟨(resumedState.sets "r1").get (by decide +kernel), (resumedState.sets "r2").get (by decide +kernel),
     by simp, by simp, by decide +kernel, by decide +kernel, by decide +kernel⟩
